@@ -41,4 +41,27 @@ def kernelRunT (alpha : V K) (A : RMat (V K) r c) (x : Vector (V K) r) (y : Vect
   | _ => kernelT (kUpd X R s) (kTerm X R cj s alpha) A x y
 
 end Kern
+-- the vector-space operations of DenseMatrix (hand-written model) -----------------------------------------------------------------
+
+section MatSpace
+variable {V : Type → Type} {L : Nat} (X : SimdLike V L) {K : Type} (R : Arith K) {r c : Nat}
+
+def RMat.map2 {α β γ : Type} (f : α → β → γ) (A : RMat α r c) (B : RMat β r c) : RMat γ r c :=
+  Vector.zipWith (fun ra rb => Vector.zipWith f ra rb) A B
+def RMat.map1 {α β : Type} (f : α → β) (A : RMat α r c) : RMat β r c := Vector.map (fun ra => Vector.map f ra) A
+
+/-- `A += B`: row by row `(*this)[i] += x[i]`, entry by entry -/
+def matAdd (A B : RMat (V K) r c) : RMat (V K) r c := RMat.map2 (vadd X R) A B
+/-- `A -= B` -/
+def matSub (A B : RMat (V K) r c) : RMat (V K) r c := RMat.map2 (vsub X R) A B
+/-- `A *= k` (a per-lane factor) -/
+def matScale (k : V K) (A : RMat (V K) r c) : RMat (V K) r c := RMat.map1 (fun a => vmul X R a k) A
+/-- `A /= k` -/
+def matDiv (k : V K) (A : RMat (V K) r c) : RMat (V K) r c := RMat.map1 (fun a => vdiv X R a k) A
+/-- `-A` -/
+def matNeg (A : RMat (V K) r c) : RMat (V K) r c := RMat.map1 (vneg X R) A
+/-- `A.axpy(a, B)`: `A[i][j] += a * B[i][j]` -/
+def matAxpy (a : V K) (A B : RMat (V K) r c) : RMat (V K) r c := RMat.map2 (fun y x => vadd X R y (vmul X R a x)) A B
+
+end MatSpace
 end DV.C09
